@@ -18,7 +18,7 @@ from checks.c12 import rec, fn, BASE
 CORNER = {"norad": {5, 25544, 99999}, "desig": {0, 1, 3}, "eyy": {74, 85, 99, 0, 8, 16}, "edoy": {1, 124, 300, 365},
           "efrac": {0, 55610684, 99999999}, "ndsgn": {-1, 1}, "nd": {0, 1524, 30000}, "bssgn": {-1, 1}, "bsmant": {0, 11606, 30197, 99999},
           "bsesgn": {-1}, "bsexp": {2, 3, 4}, "incl": {1, 516421, 634000, 982000, 1440000, 1799000}, "raan": {0, 2362139, 3599999},
-          "ecc": {0, 3381, 100000, 1000000, 6470982, 9000000}, "argp": {0, 478509, 2700000}, "ma": {0, 476767, 1800000},
+          "ecc": {0, 1, 500, 1000, 1001, 3381, 100000, 1000000, 6470982, 9000000}, "argp": {0, 478509, 2700000}, "ma": {0, 476767, 1800000},
           "mm": {50000000, 100273791, 200561000, 318684355, 640000000, 1000000000, 1420902451, 1554198229, 1650000000}, "rev": {7, 11173}}
 
 
@@ -33,9 +33,14 @@ def run(ctx):
     name, mc, cl = tlcmod.wrap("Tle", {"Base": rec(base), "Corner": fn(CORNER)}, name="MCTleCatalogue")
     cfg = "INIT Init\nNEXT Next\n" + cl + "INVARIANT RoundTrip\nINVARIANT WellFormed\nCHECK_DEADLOCK FALSE\n"
     r = ctx.tlc(name, label="TLE catalogue (Tle.tla)", cfg_text=cfg, extra_files={name + ".tla": mc}, workers=16, dump=True, timeout=3000)
-    tles = [("".join(s["l1"]), "".join(s["l2"])) for s in r.dump]
+    # every TLE that differs from the base in at most ONE field is always propagated (each corner value of each field in an otherwise
+    # ordinary low orbit with drag: e.g. the eccentricities 1e-7, 5e-5, 1e-4 around the reference model's near-circular threshold);
+    # the pairs are sampled
+    singles = [("".join(s["l1"]), "".join(s["l2"])) for s in r.dump if sum(1 for k in base if s["fields"][k] != base[k]) <= 1]
+    tles = [("".join(s["l1"]), "".join(s["l2"])) for s in r.dump if sum(1 for k in base if s["fields"][k] != base[k]) > 1]
     rnd.shuffle(tles)
-    tles = tles[: (1200 if thorough else 150)]
+    tles = singles + tles[: (1200 if thorough else 110)]
+    ctx.extra["single_field_tles"] = len(singles)
     labels = ["UTC", "TAI", "TT", "GPS", "UT1", "TDB"]
     cases = []
     for k, (l1, l2) in enumerate(tles):
